@@ -357,6 +357,13 @@ func c33Run(rt *rapid.T, rec *ev.Rec) {
 		return true
 	}
 
+	// clean scripts avoid the three known leak routes so that equations (3)/(4) are
+	// checked at full strength to the end of the script.
+	clean := rapid.IntRange(0, 2).Draw(rt, "clean") == 0
+	if clean {
+		c.classes["clean-script"] = true
+		c.logf("clean script")
+	}
 	nSteps := rapid.IntRange(3, 22).Draw(rt, "nSteps")
 	for step := 0; step < nSteps && inconclusive == "" && !failed && !stop; step++ {
 		if checkViol() {
@@ -375,15 +382,15 @@ func c33Run(rt *rapid.T, rec *ev.Rec) {
 				acts = append(acts, action{"data", s}, action{"data", s})
 			}
 			if !s.srvClosed && !s.handlerGone && !s.bodyClosed && s.unread() > 0 {
-				acts = append(acts, action{"read", s}, action{"read", s})
+				acts = append(acts, action{"read", s}, action{"read", s}, action{"read", s})
 			}
-			if !s.handlerGone && !s.srvClosed {
+			if !s.handlerGone && !s.srvClosed && !(clean && s.unread() > 0) {
 				acts = append(acts, action{"finish", s})
 			}
-			if !s.srvClosed && !s.clientReset {
+			if !s.srvClosed && !s.clientReset && !(clean && s.unread() > 0) {
 				acts = append(acts, action{"rst", s})
 			}
-			if !s.srvClosed && !s.handlerGone && !s.bodyClosed {
+			if !s.srvClosed && !s.handlerGone && !s.bodyClosed && !clean {
 				acts = append(acts, action{"closebody", s})
 			}
 		}
@@ -394,13 +401,21 @@ func c33Run(rt *rapid.T, rec *ev.Rec) {
 		case "open":
 			openStream()
 		case "data":
+			mode := rapid.IntRange(0, 9).Draw(rt, "dataMode") // 0: overdraw, else fit
+			if mode == 0 && !s.srvClosed && !s.bodyClosed {
+				// An overdraw must be one against the windows the server has advertised, not
+				// only against the client's (lagging) view: first collect every WINDOW_UPDATE
+				// that is still in flight (equations (3)/(4) must hold).
+				if !checkpoint(false) || stop || failed || inconclusive != "" {
+					break
+				}
+			}
 			var connWin, stWin int64
 			r.locked(func() { connWin, stWin = c.connWin, s.sendWin })
 			avail := stWin
 			if connWin < avail {
 				avail = connWin
 			}
-			mode := rapid.IntRange(0, 9).Draw(rt, "dataMode") // 0: overdraw, else fit
 			padded := rapid.IntRange(0, 2).Draw(rt, "padded") == 0
 			end := rapid.IntRange(0, 5).Draw(rt, "end") == 0
 			var pad []byte
@@ -428,6 +443,14 @@ func c33Run(rt *rapid.T, rec *ev.Rec) {
 					c.logf("skip overdraw on stream %d (would also exceed content-length)", s.id)
 					continue
 				}
+				if int64(flow) > connWin && c.leak[c33KeyOverCL] > 0 && rec.Known(c33KeyOverCL) {
+					// known finding: the server never deducted the over-content-length frame, so its
+					// connection window is larger than the client's; a connection-level overdraw
+					// cannot be constructed from the client-side ledger any more.
+					rec.Excluded("conn-overdraw-after-known-over-content-length-leak")
+					c.logf("skip connection-level overdraw on stream %d (after known leak)", s.id)
+					continue
+				}
 				overdraw = true
 			} else {
 				if padded {
@@ -444,6 +467,9 @@ func c33Run(rt *rapid.T, rec *ev.Rec) {
 				room := int(avail)
 				if padded {
 					room -= 1 + len(pad)
+				}
+				if clean && s.declCL >= 0 && !s.srvClosed && int64(room) > s.declCL-int64(s.sent) {
+					room = int(s.declCL - int64(s.sent))
 				}
 				if room > 0 {
 					hi := room
@@ -527,7 +553,7 @@ func c33Run(rt *rapid.T, rec *ev.Rec) {
 				if int64(flow) == avail && flow > 0 {
 					c.classes["window-exhausted"] = true
 				}
-				c.logf("DATA stream %d len=%d pad=%d end=%v", s.id, n, len(pad), end)
+				c.logf("DATA stream %d len=%d padded=%v/%d end=%v", s.id, n, pad != nil, len(pad), end)
 			}
 			if r.writeData(s.id, end, data, pad) != nil {
 				barrier()
@@ -658,6 +684,20 @@ func c33Run(rt *rapid.T, rec *ev.Rec) {
 		c.logf("final: finish all handlers")
 		if barrier() {
 			for _, s := range c.streams {
+				if clean && !s.srvClosed && !s.handlerGone && !s.bodyClosed && s.unread() > 0 {
+					n := s.unread()
+					c.logf("handler of stream %d reads %d octets", s.id, n)
+					res, ok := r.do(s.h, hop{Kind: opRead, N: n})
+					if !ok {
+						inconclusive = "watchdog"
+						break
+					}
+					if res.N != n || !bytes.Equal(res.Data, patBytes(s.idx, s.read, n)) {
+						fail("accepted-data-not-delivered", "stream %d: handler asked for %d accepted octets at offset %d, got %d (err %q) or different content", s.id, n, s.read, res.N, res.Err)
+						break
+					}
+					s.read += n
+				}
 				if !finishHandler(s) {
 					break
 				}
@@ -672,7 +712,9 @@ func c33Run(rt *rapid.T, rec *ev.Rec) {
 			}
 			if all {
 				c.logf("final checkpoint: all streams closed")
-				checkpoint(true)
+				if checkpoint(true) && !stop {
+					c.classes["quiescent-window-restored"] = true
+				}
 			}
 		}
 	}
